@@ -157,8 +157,31 @@ def gen_values(rng):
     return {"kind": "valuesets", "a": a, "b": b}
 
 
+def interior_pairs():
+    """same class, same string form, same min and max - only the residues can tell them apart"""
+    out = []
+    def arr(w, n):
+        return {"k": "var", "e": {"k": "prim", "p": "uint", "w": w, "c": "sat"}, "n": n}
+    k = 0
+    for (w1, n1), (w2, n2) in [((8, 2), (16, 1)), ((8, 4), (16, 2)), ((8, 4), (32, 1)), ((16, 2), (32, 1)), ((8, 6), (24, 2)), ((4, 4), (8, 2))]:
+        for kind in ("struct", "union"):
+            k += 1
+            extra = [["z", {"k": "prim", "p": "uint", "w": w1 * n1 + 8, "c": "sat"}]] if kind == "union" else [["z", {"k": "prim", "p": "bool"}]]
+            a = {"k": kind, "name": "ns.I%d" % k, "ver": [1, 0], "fs": [["x", arr(w1, n1)]] + extra}
+            b = {"k": kind, "name": "ns.I%d" % k, "ver": [1, 0], "fs": [["x", arr(w2, n2)]] + extra}
+            out.append((a, b))
+            out.append(({"k": "fix", "e": a, "n": 2}, {"k": "fix", "e": b, "n": 2}))
+            out.append(({"k": "delim", "i": a, "ext": 1024}, {"k": "delim", "i": b, "ext": 1024}))   # delimited: really equal sets
+    return out
+
+
 def generate(rng, tier):
     cases, streams = [], []
+    for a, b in interior_pairs():
+        cases.append({"kind": "types", "a": a, "b": b})
+        streams.append("targeted")
+        cases.append({"kind": "fields", "a": ["f", a], "b": ["f", b]})
+        streams.append("targeted")
     for x in STRINGS:
         for y in STRINGS:
             if x < y and (x.encode() != y.encode()):
@@ -265,6 +288,7 @@ def layout_obs(t):
     ob = [str(t), type(t).__name__, t.alignment_requirement, b.min, b.max, sorted(b % 32), sorted(b % 7)]
     if isinstance(t, pydsdl.CompositeType):
         ob += [t.short_name, t.root_namespace, t.full_namespace, list(t.name_components), list(t.namespace_components)]
+        ob += [[(a.name, str(t[a.name])) for a in t.attributes if a.name]]   # lookup by name, constants included
         ob += [t.extent, t.full_name, tuple(t.version), t.deprecated, t.fixed_port_id, [str(x) for x in t.attributes],
                [(f.name, sorted(o % 8), o.min, o.max) for f, o in t.iterate_fields_with_offsets()]]
     return ob
@@ -283,7 +307,21 @@ def _run_impl_raw(cases):
         try:
             k = case["kind"]
             if k == "types":
-                out.append(pair_obs(tygen.build(case["a"]), tygen.build(case["b"])))
+                cache_a = {}
+                A = tygen.build(case["a"], cache_a)
+                ob = pair_obs(A, tygen.build(case["b"]))
+                _ = (A == A, hash(A))
+                # queries on a composite must not disturb its parts: every nested type object still equals (and hashes like)
+                # an independently built one
+                for n in tygen.subtypes(case["a"])[:-1]:
+                    part = cache_a.get(id(n))
+                    if part is None:
+                        continue
+                    fresh = tygen.build(copy.deepcopy(n))
+                    if not (part == fresh and fresh == part) or hash(part) != hash(fresh) or part.bit_length_set != fresh.bit_length_set:
+                        ob["pred_fail"] = "after comparing a composite, its nested type %s no longer equals an independently built one" % part
+                        break
+                out.append(ob)
             elif k == "fields":
                 fa = pydsdl.Field(tygen.build(case["a"][1]), case["a"][0])
                 fb = pydsdl.Field(tygen.build(case["b"][1]), case["b"][0])
